@@ -10,6 +10,10 @@ Part 2: byte-level mirrors of the tiny-std code AS WRITTEN (fs.rs, rusl dirent.r
 fs::write, fs::read, File::copy / copy_file, create_dir_all + write_all_sub_paths, ReadDir::next +
 Dirent::try_from_bytes, Directory::remove_all / remove_dir_all.  `…Old` are the mirrors of the code before the
 two `fix:` commits (kept for the model-level defect witnesses).
+
+Environment inputs (chosen by the kernel, not by the code): the short counts of `write` / `copy_file_range`
+(`clamp`, one script entry per call) and the way a directory's records are split over successive `getdents64`
+answers (`Dents`, one script entry per call; `kernelDents` is the split the running kernel is observed to choose).
 -/
 namespace TinyVerif.Fs
 
